@@ -8,6 +8,7 @@ import (
 	"encoding/binary"
 	"fmt"
 	"math"
+	"math/bits"
 	"sync"
 	"sync/atomic"
 	"time"
@@ -21,7 +22,8 @@ import (
 
 func init() {
 	fw.Register(&fw.Prop{
-		ID: "C11",
+		ID:     "C11",
+		Builds: []string{"default", "386"}, // the 386 build runs a quarter of the random classes on a 32-bit target
 		Rule: "mine: (data of length 0..300, target, workers 1..16) with targets 3^k/len for k=0..8 exactly and +-1, +-2 ulp, 3^k/len*(1+-1e-9), targets at or below 1/len (1/len, 0.9/len, 1/(3 len), 1e-9, smallest subnormal, 0, -0, -1) and random targets up to 3^9/len; every nonce returned without error must satisfy Score(data||LE64(nonce)) >= target under the package's Score and under the model score; the process must survive (a worker-goroutine panic kills the child process and the case in flight is the witness). shared: several Mine calls with different targets run concurrently on ONE *Worker; every returned nonce must meet its own target. score: Score(msg) for messages of length 8..400 equals 3^z/len with z from the model (BLAKE2b-256, own b1t6, own Curl-P-81). check: the bit-plane lane test (hook) on crafted 64-lane states with exactly n-1, n, n+1 trailing zero trits at lane 0, 63 and random lanes for n in 0..243 returns the first qualifying lane or 64. " +
 			"Non-trivial: mine cases with a target within 2 ulp of a 3^k/len boundary or with len*target < 1; all check cases; score cases.",
 		Assumptions: []string{"BLAKE2b-256 (x/crypto)", "float64 arithmetic of the Go runtime (3^z exact for z <= 33)", "the Curl-P-81 / b1t6 model in harness/oracle/curlp (self-tested)"},
@@ -96,8 +98,9 @@ func judge(class string, key []byte, o *fw.Obs) {
 		seed, n := fw.GetU64(p[0]), uint(fw.GetU32(p[1]))
 		o.Nontrivial()
 		r := fw.SubRng(int64(seed), "c11-check")
+		const lanes = bits.UintSize // 64 lanes on 64-bit targets, 32 in the 386 build
 		var l, h [243]uint
-		want := 64
+		want := lanes
 		// choose the trailing-zero count of every lane
 		special := map[int]int{}
 		switch r.Intn(4) {
@@ -105,12 +108,12 @@ func judge(class string, key []byte, o *fw.Obs) {
 		case 1:
 			special[0] = 1
 		case 2:
-			special[63] = 1
+			special[lanes-1] = 1
 		default:
-			special[r.Intn(64)] = 1
-			special[r.Intn(64)] = 2
+			special[r.Intn(lanes)] = 1
+			special[r.Intn(lanes)] = 2
 		}
-		for j := 0; j < 64; j++ {
+		for j := 0; j < lanes; j++ {
 			var zeros int
 			switch {
 			case special[j] == 1:
@@ -162,7 +165,7 @@ func judge(class string, key []byte, o *fw.Obs) {
 			return
 		}
 		if got != want {
-			o.Fail("lane", "checkStateTrits(n=%d) = %d, the first lane with at least n trailing zero trits is %d (64 = none)", n, got, want)
+			o.Fail("lane", "checkStateTrits(n=%d) = %d, the first lane with at least n trailing zero trits is %d (%d = none)", n, got, want, lanes)
 			return
 		}
 		o.Count("check ok")
